@@ -69,6 +69,11 @@ class _FakeRandom(object):
     def random(self):
         return 0.5
 
+    def getrandbits(self, k):
+        # the start value of a process's request ids: distinct per incarnation of a node (1000 * incarnation number)
+        n = _Ctx.node
+        return 1000 * (n.generation - 1) if n is not None else 0
+
 
 class _DetGzip(object):
     """gzip with a fixed header time stamp: equal snapshot content <=> equal bytes (blob identity = content)"""
@@ -862,8 +867,8 @@ class Cluster(object):
         o = sn.obj
         if o is None or not sn.alive:
             if self.cfg.get('journal') and sn.generation > 0:
-                return {'alive': False, 'disk': self.project_disk(sn)}
-            return {'alive': False}
+                return {'alive': False, 'disk': self.project_disk(sn), 'gen': int(sn.generation)}
+            return {'alive': False, 'gen': int(sn.generation)}
         g = lambda name: getattr(o, '_SyncObj__' + name)
         log = g('raftLog')
         now = sn.clock
